@@ -117,6 +117,25 @@ def text_layout(cx, L, n):
         cx.check(mido.read_syx_file('e.syx') == [], 'empty-file')
 
 
+@harness(labels=['many-messages-all-returned', 'large-text-file'])
+def scale(cx, plaintext):
+    """Concrete scale probes: more than a thousand messages; a text file larger than 64 KiB."""
+    import mido
+    n = [1023, 1025, 3000][cx.choice('count', 3)]
+    msgs = [mido.Message('sysex', data=[i % 128, (i // 128) % 128]) for i in range(n)]
+    with _fs():
+        mido.write_syx_file('many.syx', msgs, plaintext=plaintext)
+        got = mido.read_syx_file('many.syx')
+    cx.check(len(got) == n and _same(cx, got, msgs), 'many-messages-all-returned')
+    L = [21844, 21846, 30001][cx.choice('len', 3)]
+    big = [mido.Message('sysex', data=[(7 * i) % 128 for i in range(L)]), mido.Message('sysex', data=[1])]
+    with _fs():
+        mido.write_syx_file('big.syx', big, plaintext=plaintext)
+        got, exc = cx.raises(lambda: mido.read_syx_file('big.syx'), label='large-text-file')
+    if exc is None:
+        cx.check(_same(cx, got, big), 'large-text-file')
+
+
 BAD_TEXT = ['F0 1 F7', 'F0 0G F7', 'F0 01 F', 'F 0 01 F7', 'F0 01 F7 x', 'F0,01,F7', '0xF0 0x01 0xF7', 'F0 01F 7',
             'F0 -1 F7', 'hello', 'F0 01 F7\x00']
 
@@ -135,7 +154,7 @@ BOUNDS = {
     'quick': 'lists of 0..3 messages, each of a symbolically chosen kind among sysex with 0/1/2/4 symbolic data bytes, note_on, '
              'clock, songpos, tune_request: binary and plain-text write -> read; payloads of 127/128/4096 symbolic-fill bytes; '
              'binary files with other messages and a stray byte between sysex messages; text files of 1-2 sysex (payload 0..2) '
-             'with leading/inner/trailing white space from a 7-entry menu and upper/lower case; 11 corrupt texts',
+             'with leading/inner/trailing white space from a 7-entry menu and upper/lower case; 11 corrupt texts; concrete scale probes (1023..3000 messages, payloads of 21844..30001 bytes in both formats)',
     'thorough': 'lists of 4 messages',
 }
 OUTSIDE = 'real file system semantics (open() is replaced by an in-memory double in mido.syx); text encodings other than ' \
@@ -157,4 +176,6 @@ def JOBS(tier):
         for n in (1, 2):
             jobs.append((text_layout, {'L': L, 'n': n}, {'cost': 100}))
     jobs.append((text_invalid, {}, {}))
+    for pt in (False, True):
+        jobs.append((scale, {'plaintext': pt}, {'cost': 100}))
     return jobs
